@@ -122,6 +122,38 @@ def catch_dcheck(text):
             'def catchDcheck : Bool := %s' % val)
 
 
+INIT = r'inline void ThreadedIter<DType>::Init\(\s*std::function<bool\(DType \*\*\)> next, std::function<void\(\)> beforefirst\) \{'
+
+
+def init_stores(text):
+    """what `Init(next, beforefirst)` assigns before it starts the producer thread: the object must be back in its
+    initial state also when Init follows a Destroy (second life of one object)"""
+    m = re.search(INIT, text)
+    if not m:
+        raise cexpr.ParseError('Init(next, beforefirst) not found')
+    e = text.find('auto producer_fun', m.end())
+    if e < 0:
+        raise cexpr.ParseError('Init: producer_fun not found')
+    head = re.sub(r'//[^\n]*', '', text[m.end():e])
+
+    def stored(member, kinds):
+        hits = re.findall(member + r'\.store\((\w+)(?:, std::memory_order_\w+)?\);', head)
+        if len(hits) > 1:
+            raise cexpr.ParseError('Init stores %s more than once' % member)
+        if not hits:
+            return 'none'
+        if hits[0] not in kinds:
+            raise cexpr.ParseError('Init stores an unexpected value into %s: %s' % (member, hits[0]))
+        return 'some ' + hits[0]
+    sig = stored('producer_sig_', ('kProduce', 'kBeforeFirst', 'kDestroy'))
+    proc = stored('producer_sig_processed_', ('true', 'false'))
+    end = stored('produce_end_', ('true', 'false'))
+    clr = 'true' if re.search(r'\bClearException\(\);', head) else 'false'
+    return ('-- %s Init(next, beforefirst): the assignments in front of the producer thread\n'
+            'def initSig : Option Nat := %s\ndef initProcessed : Option Bool := %s\n'
+            'def initProduceEnd : Option Bool := %s\ndef initClearsExc : Bool := %s' % (F, sig, proc, end, clr))
+
+
 ITEMS = [
     {'name': 'signals', 'file': F, 'custom': signals},
     # ---- producer loop -------------------------------------------------------------------------
@@ -168,6 +200,8 @@ ITEMS = [
     item('bWaitPred', BEFOREFIRST, r'consumer_cond_\.wait\(\s*lock, \[this\]\(\) \{ return ([^;]+); \}\);\s*producer_sig_processed_\.store\(false',
          ['processed']),
     item('bNotify', BEFOREFIRST, r'bool notify = ([^;]+);\s*lock\.unlock\(\);', ['nwaitP', 'produceEnd']),
+    # ---- Init (life cycle) ----------------------------------------------------------------------------
+    {'name': 'initStores', 'file': F, 'custom': init_stores},
     # ---- Destroy ------------------------------------------------------------------------------------
     item('dNotify', DESTROY, r'producer_sig_\.store\(kDestroy, std::memory_order_release\);\s*if \((.+?)\) \{\s*producer_cond_\.notify_one\(\);',
          ['nwaitP']),
